@@ -257,9 +257,146 @@ func ruleTokenWriters(c *Ctx) {
 	}
 	sort.Strings(ds)
 	c.Note("writers found: %s", strings.Join(ds, " | "))
+	// the sufficiency check comes before every effect of a balance change: a failed transfer returns false and the
+	// transaction HALTs, so anything written before the check would be kept
+	fundsExtra := []string{"math/big.(*Int).Sign", "math/big.(*Int).Cmp", "math/big.(*Int).CmpAbs", "pkg/core/state.NEP17BalanceFromBytes", "pkg/core/state.NEOBalanceFromBytes"}
+	runGates(c, []GateSpec{{
+		ID: "NEO.increaseBalance.funds-first", Fn: [3]string{natPkg, "NEO", "increaseBalance"},
+		Target: "call:pkg/core/native.(*NEO).ModifyAccountVotes|pkg/core/native.(*NEO).modifyVoterTurnout|math/big.(*Int).Add", MinSites: 3,
+		Guards: []Guard{{ID: "funds", Doc: "the balance covers the amount taken", Alts: [][]string{{"pkg/core/state#Balance", "param:amount", "math/big.(*Int).CmpAbs"}}, Whole: true, Extra: fundsExtra}},
+	}, {
+		ID: "GAS.increaseBalance.funds-first", Fn: [3]string{natPkg, "GAS", "increaseBalance"},
+		Target: "call:math/big.(*Int).Add",
+		Guards: []Guard{{ID: "funds", Doc: "the balance covers the amount taken", Alts: [][]string{{"pkg/core/state#Balance", "param:amount", "math/big.(*Int).CmpAbs"}}, Whole: true, Extra: fundsExtra}},
+	}})
+	ruleTurnoutFlip(c)
 	// a stored candidate record is never replaced by a blank one: the fresh record is created only when none is stored
 	runGates(c, []GateSpec{{
 		ID: "RegisterCandidateInternal.fresh-record", Fn: [3]string{natPkg, "NEO", "RegisterCandidateInternal"}, Target: "node:type:pkg/core/native.candidate,pkg/core/native#Registered",
 		Guards: []Guard{{ID: "none-stored", Doc: "a blank candidate record (zero votes) is created only when storage has none", Alts: [][]string{{"pkg/core/dao.(*Simple).GetStorageItem"}}}},
 	}})
+}
+
+// ruleTurnoutFlip: the voters count changes exactly when an account's voting status flips. The condition guarding
+// modifyVoterTurnout in voteInternalUncheckedDeferrable is evaluated over its two inputs (old vote is nil, new vote
+// is nil): it must be their exclusive or.
+func ruleTurnoutFlip(c *Ctx) {
+	fd := c.P.Func(natPkg, "NEO", "voteInternalUncheckedDeferrable")
+	key := "vote.turnout-on-status-flip"
+	if fd == nil {
+		c.Lost(key+".anchor", "NEO.voteInternalUncheckedDeferrable not found")
+		return
+	}
+	f := c.P.NewFuncCFG(fd)
+	var conds []*ast.IfStmt
+	ast.Inspect(fd.Decl.Body, func(n ast.Node) bool {
+		is, ok := n.(*ast.IfStmt)
+		if !ok {
+			return true
+		}
+		has := false
+		ast.Inspect(is.Body, func(m ast.Node) bool {
+			if call, ok := m.(*ast.CallExpr); ok && f.calleeSym(call) == "pkg/core/native.(*NEO).modifyVoterTurnout" {
+				has = true
+			}
+			return true
+		})
+		if has {
+			conds = append(conds, is)
+			return false // the outermost if containing the call
+		}
+		return true
+	})
+	if len(conds) != 1 {
+		c.Lost(key+".site", fmt.Sprintf("expected one conditional call of modifyVoterTurnout in voteInternalUncheckedDeferrable, found %d", len(conds)))
+		return
+	}
+	cond := conds[0].Cond
+	// atoms: X == nil / X != nil with X the account's current vote or the new vote (a *keys.PublicKey parameter)
+	classify := func(e ast.Expr) (string, bool, bool) { // variable, value-when-nil, ok
+		be, ok := ast.Unparen(e).(*ast.BinaryExpr)
+		if !ok || (be.Op != token.EQL && be.Op != token.NEQ) {
+			return "", false, false
+		}
+		x, y := be.X, be.Y
+		isNil := func(e ast.Expr) bool {
+			id, ok := ast.Unparen(e).(*ast.Ident)
+			if !ok {
+				return false
+			}
+			_, n := f.Info.ObjectOf(id).(*types.Nil)
+			return n
+		}
+		if isNil(x) {
+			x, y = y, x
+		}
+		if !isNil(y) {
+			return "", false, false
+		}
+		m := f.DirectMentions(x)
+		switch {
+		case m["pkg/core/state#VoteTo"]:
+			return "old", be.Op == token.EQL, true
+		default:
+			if id, ok := ast.Unparen(x).(*ast.Ident); ok {
+				if v, ok := f.Info.ObjectOf(id).(*types.Var); ok && f.params[v] && strings.HasSuffix(v.Type().String(), "keys.PublicKey") {
+					return "new", be.Op == token.EQL, true
+				}
+			}
+		}
+		return "", false, false
+	}
+	var eval func(e ast.Expr, oldNil, newNil bool) (bool, bool)
+	eval = func(e ast.Expr, oldNil, newNil bool) (bool, bool) {
+		e = ast.Unparen(e)
+		if v, whenNil, ok := classify(e); ok {
+			isNil := oldNil
+			if v == "new" {
+				isNil = newNil
+			}
+			return isNil == whenNil, true
+		}
+		switch x := e.(type) {
+		case *ast.UnaryExpr:
+			if x.Op == token.NOT {
+				v, ok := eval(x.X, oldNil, newNil)
+				return !v, ok
+			}
+		case *ast.BinaryExpr:
+			l, lok := eval(x.X, oldNil, newNil)
+			r, rok := eval(x.Y, oldNil, newNil)
+			if !lok || !rok {
+				return false, false
+			}
+			switch x.Op {
+			case token.LAND:
+				return l && r, true
+			case token.LOR:
+				return l || r, true
+			case token.EQL:
+				return l == r, true
+			case token.NEQ:
+				return l != r, true
+			}
+		}
+		return false, false
+	}
+	var bad []string
+	for _, o := range []bool{false, true} {
+		for _, n := range []bool{false, true} {
+			v, ok := eval(cond, o, n)
+			if !ok {
+				c.Unclassified(key, c.P.Pos(cond.Pos()), "the condition guarding modifyVoterTurnout is not a boolean combination of `old vote == nil` and `new vote == nil`")
+				return
+			}
+			if v != (o != n) {
+				bad = append(bad, fmt.Sprintf("old vote nil=%v, new vote nil=%v: turnout %s", o, n, map[bool]string{true: "changed although the voting status does not flip", false: "not changed although the voting status flips"}[v]))
+			}
+		}
+	}
+	if len(bad) > 0 {
+		c.Fail(key, c.P.Pos(cond.Pos()), "the voters count must change exactly when the account starts or stops voting: "+strings.Join(bad, "; "))
+		return
+	}
+	c.OK(key, c.P.Pos(cond.Pos()), "`"+types.ExprString(cond)+"` holds exactly when the voting status flips (4 rows)")
 }
